@@ -710,6 +710,7 @@ package rosmar
 //@   ensures [C18:subdocWrite.insert-needs-doc]   insert && count("call:Collection.Get") >= 1 && callret("Collection.Get", 1) != nil ==> err != nil && iter("call:Collection.WriteCas") == 0
 //@   ensures [C18:subdocWrite.success]            err == nil ==> iter("call:Collection.WriteCas") == 1 && callret("Collection.WriteCas", 1) == nil && casOut == callret("Collection.WriteCas", 0)
 //@   ensures [C03,C18:subdocWrite.only-conditional-writes] count("sql") == 0
+//@   ensures [C03,C18:subdocWrite.decodes-into-fresh-map] count("call:Collection.Get") >= 1 ==> calltargetnil("Collection.Get", 2)
 //@   ensures [C20:subdocWrite.unlocked] any: nolocks()
 
 // ---------------------------------------------------------------------------------------------------------------
